@@ -5,6 +5,8 @@
 package model
 
 import (
+	"fmt"
+
 	"github.com/basecomplextech/spec/internal/lang/syntax"
 )
 
@@ -34,6 +36,11 @@ func parseMessage(pkg *Package, file *File, def *Definition, pmsg *syntax.Messag
 }
 
 func generateMessageDef(pkg *Package, file *File, name string, fields *Fields) (*Definition, error) {
+	// Check the name is free in the package, not only in the file
+	if _, ok := pkg.DefinitionNames[name]; ok {
+		return nil, fmt.Errorf("duplicate definition %q", name)
+	}
+
 	def := &Definition{
 		Package: pkg,
 		File:    file,
@@ -49,10 +56,12 @@ func generateMessageDef(pkg *Package, file *File, name string, fields *Fields) (
 	}
 	def.Message = msg
 
-	// Add definition to file
+	// Add definition to file and package
 	if err := file.add(msg.Def); err != nil {
 		return nil, err
 	}
+	pkg.Definitions = append(pkg.Definitions, def)
+	pkg.DefinitionNames[name] = def
 	return def, nil
 }
 
